@@ -112,7 +112,7 @@ PROPS["C14"] = {
     "assumptions": ["serde_json / chrono serde implementations behave as documented"],
 }
 PROPS["C08"] = {
-    "rules": [r_servers.rule_P1, r_servers.rule_P2, r_servers.rule_P3, lambda F, R: r_cloud.rule_K(F, R), r_servers.rule_A1_local, r_servers.rule_A1_drop, r_servers.rule_GC, r_servers.rule_GC3, r_servers.rule_GS1, r_servers.rule_GI, r_crypto.rule_X4],
+    "rules": [r_servers.rule_P1, r_servers.rule_P2, r_servers.rule_P3, r_servers.rule_P4, lambda F, R: r_cloud.rule_K(F, R), r_servers.rule_A1_local, r_servers.rule_A1_drop, r_servers.rule_GC, r_servers.rule_GC3, r_servers.rule_GS1, r_servers.rule_GI, r_crypto.rule_X4],
     "explanation": "P1 acceptance-guard path tables for the local, object-store and git backends; P2 identity of returned ids (child vs parent, Ok(id) is the stored fresh id); P3 HTTP mapping table against docs/http.md (endpoints, verbs, content types, headers, 409/404 mapping, urgency header); K1-K5 for the object store; A1 for the local backend.",
     "not_decided": "conformance over long call sequences; byte-for-byte round trips of arbitrary payloads through SQLite/git/HTTP encodings; `changes nothing on rejection` as a state property",
     "assumptions": ["a protocol-conformant sync server on the other side of the HTTP client"],
